@@ -38,8 +38,14 @@ mod c23 {
     /// rounds > gas_limit (checked first); otherwise a final-block flag (byte 212) other than 0 / 1 fails with
     /// Blake2WrongFinalIndicatorFlag.  The success path (h / m / t parsing, compression, output) is NOT covered
     /// (building the output `Bytes` is too expensive for CBMC): inputs with enough gas and a valid flag are excluded.
+    /// on the error paths the compression must not be reached at all
+    fn compress_must_not_run(_rounds: usize, _h: &mut [u64; 8], _m: [u64; 16], _t: [u64; 2], _f: bool) {
+        panic!("blake2 compression reached on an error path");
+    }
+
     #[kani::proof]
-    #[kani::unwind(2)]
+    #[kani::unwind(18)] // covers the 8 / 16-step parsing loops, so that a WRONGLY accepted input runs on to the stub's panic
+    #[kani::stub(revm_precompile::blake2::algo::compress, compress_must_not_run)]
     fn blake2_len213_errors() {
         let buf: [u8; 213] = kani::any();
         let gas: u64 = kani::any();
